@@ -327,7 +327,7 @@ Lemma read_tracts_spec : forall tl T k o padAll, 0 < tl ->
   forall cnt j p acc,
   (cnt > 0)%nat -> p < k -> j * tl <= o + p -> o + p < (j + 1) * tl ->
   (j + N.of_nat cnt - 1) * tl < o + k ->
-  let rs := read_tracts tl cnt j T k o p in
+  let rs := read_tracts tl cnt j T no_fault k o p in
   let D := concat (map snd rs) in
   let L := j + N.of_nat cnt - 1 in
   let gL := N.max (o + p) (L * tl) in
@@ -340,7 +340,7 @@ Lemma read_tracts_spec : forall tl T k o padAll, 0 < tl ->
      else (acc + (N.max gL stored - (o + p)), E_EOF)).
 Proof.
   intros tl T k o padAll Htl. induction cnt as [|c IH]; intros j p acc Hc Hp Hj1 Hj2 He; [lia|].
-  cbn [read_tracts].
+  cbn [read_tracts]. change (no_fault j) with false. cbv iota.
   pose proof (next_range_spec tl k o p j Htl Hp Hj1 Hj2) as Hn.
   destruct (next_range tl k o p) as [toff tlen]. destruct Hn as (Htoff & Htlen & Hsum).
   pose proof (read_one_spec (T j) toff tlen) as Hr.
@@ -372,7 +372,7 @@ Proof.
     replace (j + 1 + N.of_nat (S c') - 1) with (j + N.of_nat (S (S c')) - 1) in * by lia.
     set (L := j + N.of_nat (S (S c')) - 1) in *.
     assert (HL : (j + 1) * tl <= L * tl) by (apply N.mul_le_mono_r; lia).
-    set (rest := read_tracts tl (S c') (j + 1) T k o (p + tlen)) in *.
+    set (rest := read_tracts tl (S c') (j + 1) T no_fault k o (p + tlen)) in *.
     cbn [map concat fst snd]. rewrite rlen_app, Hpl.
     split; [lia|]. split.
     + intros y Hy. rewrite rget_app, Hpl. destruct (N.ltb_spec y tlen).
@@ -393,7 +393,7 @@ Qed.
 Lemma read_tracts_specN : forall tl T k o padAll, 0 < tl ->
   forall c j L,
   0 < c -> L + 1 = j + c -> 0 < k -> j * tl <= o -> o < (j + 1) * tl -> L * tl < o + k ->
-  let rs := read_tracts tl (N.to_nat c) j T k o 0 in
+  let rs := read_tracts tl (N.to_nat c) j T no_fault k o 0 in
   let D := concat (map snd rs) in
   let gend := N.min (o + k) ((L + 1) * tl) in
   let stored := L * tl + rlen (T L) in
@@ -443,7 +443,7 @@ Lemma read_at_spec : forall v tl st off k r st',
   snd (fst r) = (if len <? o + k then (if negb (fix16 v) && full_tail_in tl len o k then E_OK else E_EOF) else E_OK) /\
   tracts st' = tracts st /\ ntr st' = ntr st /\ same_handle st st' /\ cache_ok st'.
 Proof.
-  intros v tl st off k r st' Htl Hwf Hc Hoff Hk H o len. unfold read_at in H.
+  intros v tl st off k r st' Htl Hwf Hc Hoff Hk H o len. unfold read_at, read_at_try in H.
   destruct (Z.ltb_spec off 0) as [Ho0|Ho0]; [lia|].
   destruct (N.eqb_spec k 0) as [Hk0|Hk0]; [lia|].
   fold o in H. set (start := o / tl) in *. set (e := (o + k + tl - 1) / tl) in *.
